@@ -867,7 +867,6 @@ func (c *Ctx) foldRestarts(rule string, fn *ssa.Function) int {
 	return n
 }
 
-
 // expiryReadBeforeOverwrite (R06.10 / R05.5): in processExecuteEvent the notification set of the expiring
 // height is computed from the stored statuses before setTimeoutRollback overwrites them.
 func (c *Ctx) expiryReadBeforeOverwrite(rule string) {
